@@ -28,9 +28,11 @@ from harness.core import cbool, clist, cstr, cz, czlist
 
 ID = "C12"
 MODEL_TARGETS = ["C12/Cases.vo"]
-PROOF_TARGETS = ["C12/Own.vo", "C12/Cutoff.vo", "C12/Proofs.vo", "C12/BridgeOwn.vo", "C12/BridgeCutoff.vo",
-                 "C12/Sites.vo", "C12/Bridge.vo", "C12/Refuted.vo"]
-OBLIGATION_FILES = ["C12/BridgeOwn.v", "C12/BridgeCutoff.v", "C12/Bridge.v", "C12/Refuted.v"]
+PROOF_TARGETS = ["C12/Own.vo", "C12/Cutoff.vo", "C12/Seeds.vo", "C12/Proofs.vo", "C12/BridgeOwn.vo",
+                 "C12/BridgeCutoff.vo", "C12/BridgeSeeds.vo", "C12/Sites.vo", "C12/Bridge.vo",
+                 "C12/Refuted.vo"]
+OBLIGATION_FILES = ["C12/BridgeOwn.v", "C12/BridgeCutoff.v", "C12/BridgeSeeds.v", "C12/Bridge.v",
+                    "C12/Refuted.v"]
 PROPS_FILE = "C12/Props.v"
 SHARD = 60
 PER_CASE_TIMEOUT = 150
@@ -64,6 +66,9 @@ TRUSTED = [
     "package's sources; trusted: methods of self found nowhere in the package (sklearn's get_params "
     "...) and functions in SELF_ARG_OK do not assign the cutoff; other objects' cutoffs are their own "
     "entries; break / continue ignored, a local function's body is counted where it is defined",
+    "translator/seedflow_c12.py (Python ast -> per seeded estimator: the random_state parameter "
+    "reaches check_random_state / RandomState / np.random.seed unchanged; fail closed): callees "
+    "outside the package take the seed as it is; isinstance type tests count as seed-preserving",
     "digest comparison of results (sha1 of a canonical bit-exact snapshot, NaN canonicalised)",
 ]
 MODELLED = [
@@ -84,8 +89,11 @@ MODELLED = [
     "distribution (`scratch-attrs:*`) but not failed; constructor parameters and RNG state must not "
     "change.  Exception: the apply-type methods with a regenerated ownership program (proved free of "
     "writes to the estimator) must not change ANY attribute (clause apply-changed-estimator-state)",
-    "random_state is an int seed throughout (the quantifier says `seeds'): a shared RandomState "
-    "instance passed as random_state is outside the property",
+    "reproducibility clauses are demanded for integer seeds (0, np.int64(0), 1, 2**32-1, numpy "
+    "integers included); for random_state=None and for a RandomState instance (advanced by fit and "
+    "by drawing apply calls) only the purity clauses are checked (caller data unchanged, no crash); "
+    "equal fitted state of equal-parameter twins is compared for the seeded estimators only (other "
+    "estimators keep timings etc. in fitted attributes)",
 ]
 NOT_RUNNABLE = [
     "TimeSeriesForestClassifier / RandomIntervalSpectralForest / SupervisedTimeSeriesForest / "
@@ -126,8 +134,9 @@ def translate(repo):
     out = dict(sites_c12.translate(repo))
     _OWN.pop("ms", None)
     out.update(own_c12.translate(repo))      # raises Unsupported on any shape it does not know
-    from translator import cutoff_c12
+    from translator import cutoff_c12, seedflow_c12
     out.update(cutoff_c12.translate(repo))
+    out.update(seedflow_c12.translate(repo))
     _own_meta(repo)
     return out
 
@@ -143,7 +152,7 @@ CAT = {}
 
 def _reg(name, kind, **kw):
     d = {"kind": kind, "nan": False, "frame": False, "n_jobs": False, "inverse": False, "slow": False,
-         "thorough_only": False}
+         "thorough_only": False, "rand": False}
     d.update(kw)
     CAT[name] = d
 
@@ -190,6 +199,42 @@ _reg("IndividualBOSS", "classifier", n_jobs=True)
 _reg("ContractableBOSS", "classifier", n_jobs=True, slow=True)
 _reg("MUSE", "classifier", slow=True)
 
+
+
+# estimators that take a `random_state`: the KIND of seed is a generated dimension for them
+RAND = ["Imputer-random", "RandomIntervalSegmenter", "Rocket", "RandomIntervalFeatureExtractor",
+        "Shapelet", "BOSSEnsemble", "IndividualBOSS", "ContractableBOSS", "MUSE"]
+for _n in RAND:
+    CAT[_n]["rand"] = True
+
+# kinds of `random_state`.  Integer kinds: everything must be reproducible (zero and a numpy
+# integer zero included: a falsy seed is still a seed).  "none" (the global generator) and "rs" (a
+# RandomState instance that fit / apply advance) are legitimately not repeatable: purity clauses
+# only.
+SEED_KINDS = ["zero", "npzero", "int", "one", "large", "npint", "none", "rs"]
+INT_KINDS = ("zero", "npzero", "int", "one", "large", "npint")
+
+
+def seed_obj(case):
+    """the random_state object of a case (a NEW object on every call: twins do not share it)"""
+    import numpy as np
+    k = case.get("seed_kind", "int")
+    v = case["seed"]
+    if k == "zero":
+        return 0
+    if k == "npzero":
+        return np.int64(0)
+    if k == "one":
+        return 1
+    if k == "large":
+        return 2 ** 32 - 1
+    if k == "npint":
+        return np.int32(v % 2 ** 31)
+    if k == "none":
+        return None
+    if k == "rs":
+        return np.random.RandomState(v % 2 ** 32)
+    return v
 
 
 def make(name, seed, n_jobs="default"):
@@ -804,18 +849,19 @@ def _run_est(case):
     import pickle
     import joblib
     import numpy as np
-    name, seed = case["est"], case["seed"]
+    name = case["est"]
     fit_args, calls = _build(case)
     out = {"fit": {}, "calls": [], "own": None, "pickle_err": None, "njobs_fit": {}}
 
     # ---- first instance: fit, first pass with before/after comparison of every argument
     np.random.seed(1234)
-    e1 = make(name, seed)
+    e1 = make(name, seed_obj(case))
     out["params"] = _plain_params(e1)
     out["cls"] = type(e1).__name__
     fit_before = _arg_snaps(fit_args)
     err = _fit(e1, fit_args)
     out["fit"] = {"err": err, "mod": _arg_diff(fit_args, fit_before)}
+    fitted1 = attr_digests(e1)
     own = [[[flat(x) for x in fit_before], [flat(snap(o)) for _, o, _ in fit_args]]]
     quals = [_qual(e1, "fit")]
     res_is_arg = [False]
@@ -903,8 +949,11 @@ def _run_est(case):
     np.random.seed(98765)
     np.random.rand(17)
     f2, c2 = fresh_calls()
-    e2 = make(name, seed)
+    e2 = make(name, seed_obj(case))
     _fit(e2, f2)
+    fitted2 = attr_digests(e2)
+    out["fitted_diff"] = sorted(k for k in set(fitted1) | set(fitted2)
+                                if fitted1.get(k) != fitted2.get(k))
     compare_rev("equal-params", e2, c2)    # first calls of a fresh instance, in the other order
 
     # ---- n_jobs under the threading backend
@@ -913,7 +962,7 @@ def _run_est(case):
             key = str(nj)
             with joblib.parallel_backend("threading"):
                 f3, c3 = fresh_calls()
-                ek = make(name, seed, nj)
+                ek = make(name, seed_obj(case), nj)
                 out["njobs_fit"][key] = _fit(ek, f3)
                 compare("n_jobs=" + key, ek, c3)
     for rec in recs:
@@ -1085,8 +1134,16 @@ def oracle(case, out):
         return None
     name = case["est"]
     f = out["fit"]
+    sk = case.get("seed_kind", "int")
+    seeded = sk in INT_KINDS          # reproducibility is demanded for integer seeds
     if f.get("mod"):
         return "fit-modified-caller-data: %s.fit %s" % (name, f["mod"])
+    if not seeded:
+        # random_state None / a RandomState instance: only the purity clauses
+        for c in out["calls"]:
+            if c["mod"]:
+                return "apply-modified-caller-data: %s.%s %s" % (name, c["label"], c["mod"])
+        return None
     if "refit_err" in f:
         return "fit-twice-differs: %s second fit -> %s, first -> %s" % (name, f["refit_err"], f["err"])
     for c in out["calls"]:
@@ -1096,6 +1153,10 @@ def oracle(case, out):
         if c.get("cutoff"):
             return "apply-moved-cutoff: %s.%s left the forecaster's cutoff changed: %s" % (
                 name, c["label"], c["cutoff"])
+    if CAT[name]["rand"] and out.get("fitted_diff") and not f["err"]:
+        return ("equal-params-fitted-state-differs: %s(random_state=%s) fitted twice with equal "
+                "parameters on equal data (global np.random in different states): attribute(s) %s "
+                "differ" % (name, _seed_repr(case), out["fitted_diff"]))
     for tag, clause in (("repeat", "repeat-apply-differs"),
                         ("interleaved", "interleaved-apply-differs"),
                         ("fit-twice", "fit-twice-differs"),
@@ -1137,6 +1198,13 @@ def oracle(case, out):
     return None
 
 
+def _seed_repr(case):
+    k = case.get("seed_kind", "int")
+    return {"zero": "0", "npzero": "np.int64(0)", "one": "1", "large": "2**32-1",
+            "npint": "np.int32(%d)" % (case["seed"] % 2 ** 31), "none": "None",
+            "rs": "RandomState(%d)" % (case["seed"] % 2 ** 32)}.get(k, str(case["seed"]))
+
+
 def nontrivial(case, out):
     k = case["kind"]
     if k == "pool":
@@ -1161,6 +1229,7 @@ def gen_cases(rng, tier):
     cases = []
     for name, d in CAT.items():
         kind = d["kind"]
+        kk = 0                    # seed kinds rotate over the cases of a seeded estimator
         for si, seed in enumerate(seeds):
             if si > 0 and not (d["n_jobs"] or "Random" in name or name in (
                     "Imputer-random", "Rocket", "Shapelet")):
@@ -1187,6 +1256,9 @@ def gen_cases(rng, tier):
                             inp["exog"] = d.get("exog", False) and rng.random() < 0.4
                         cases.append({"kind": "est", "est": name, "seed": seed, "input": inp,
                                       "n_jobs": njobs if d["n_jobs"] else []})
+                        if d["rand"]:
+                            cases[-1]["seed_kind"] = SEED_KINDS[kk % len(SEED_KINDS)]
+                            kk += 1
                 else:
                     for cont in ("nested", "numpy3d"):
                         if d["slow"] and not thorough and (vi + (cont == "nested")) % 2 == 0 \
@@ -1196,6 +1268,25 @@ def gen_cases(rng, tier):
                                "variant": variant, "container": cont, "dseed": rng.randint(1, 999)}
                         cases.append({"kind": "est", "est": name, "seed": seed, "input": inp,
                                       "n_jobs": njobs if d["n_jobs"] else []})
+                        if d["rand"]:
+                            cases[-1]["seed_kind"] = SEED_KINDS[kk % len(SEED_KINDS)]
+                            kk += 1
+    # every seeded estimator meets every kind of seed (small clean inputs; the slow ones only the
+    # integer kinds in the quick tier)
+    for name in RAND:
+        d = CAT[name]
+        have = {c.get("seed_kind") for c in cases if c["kind"] == "est" and c["est"] == name}
+        for k in SEED_KINDS:
+            if k in have or (d["slow"] and not thorough and k not in ("zero", "npzero", "int")):
+                continue
+            if d["kind"] == "series":
+                inp = {"n": 24, "variant": "missing", "index": "range",
+                       "container": rng.choice(["series", "frame"]), "dseed": rng.randint(1, 999)}
+            else:
+                inp = {"ninst": 6, "m": 16, "variant": "clean",
+                       "container": rng.choice(["nested", "numpy3d"]), "dseed": rng.randint(1, 999)}
+            cases.append({"kind": "est", "est": name, "seed": seeds[0], "seed_kind": k, "input": inp,
+                          "n_jobs": ([None, 2] if d["n_jobs"] else [])})
     for _ in range(24 if not thorough else 120):
         m = rng.randint(3, 6)
         tags = rng.sample(range(1, 40), m)
@@ -1275,6 +1366,8 @@ def distribution(cases, results):
             continue
         inp = c["input"]
         d["est:%s" % CAT[c["est"]]["kind"]] += 1
+        if "seed_kind" in c:
+            d["seed:%s" % c["seed_kind"]] += 1
         d["variant:%s" % inp["variant"]] += 1
         d["container:%s" % inp["container"]] += 1
         if not o:
@@ -1345,12 +1438,16 @@ def coq_case(case, out):
     if k == "est":
         frame = case["input"].get("container") == "frame"
         calls = []
-        changed = [False] + [bool(c["scratch"]) for c in out["calls"]]
+        # (a RandomState instance handed in as random_state is advanced by design)
+        ign = {"random_state"} if case.get("seed_kind") == "rs" else set()
+        changed = [False] + [bool(set(c["scratch"]) - ign) for c in out["calls"]]
         for i, ((b, a), q, ria) in enumerate(zip(out["own"], out["quals"], out["res_is_arg"])):
             calls.append("(%s, (%s, %s), (%s, %s))" % (
                 _mref(q, i == 0, out.get("params", {}), frame), _cstore(b), _cstore(a),
                 cbool(ria), cbool(changed[i])))
         pc = any(c["params_changed"] for c in out["calls"])
+        if case.get("seed_kind") == "rs":
+            pc = False      # a RandomState instance handed in as a parameter is advanced by design
         moved = [bool(c.get("cutoff")) for c in out["calls"]
                  if c["label"].startswith("predict")]
         return "CEst %s %s %s %s" % (clist(calls), cbool(pc), cstr(out.get("cls", "")) + "%string",
